@@ -86,3 +86,119 @@ theorem symIdx2_bounds {nb : Nat} {s1 s2 : Int} (a0 : 0 ≤ s1) (a1 : s1 < (nb :
   omega
 
 end Pyunicorn.Access
+
+namespace Pyunicorn.Access
+
+theorem forall_mem_ite_nil {α : Type} {c : Prop} [Decidable c] {l : List α} {P : α → Prop} :
+    (∀ a ∈ (if c then l else []), P a) ↔ (c → ∀ a ∈ l, P a) := by
+  split <;> simp_all
+
+/-- access at `i*nb + s` of an `N × nb` array through a symbol `s ∈ [0, nb)` -/
+theorem inb_sym1 {sz : List Nat} {arr w i N nb : Nat} {s : Int} {wr : Bool}
+    (hsz : sz.getD arr 0 = (N * nb) * w) (hi : i < N) (h0 : 0 ≤ s) (h1 : s < (nb : Int)) :
+    (Acc.mk arr ((((i * nb : Nat) : Int) + s) * (w : Int)) w wr).inb sz :=
+  inb_of_int hsz (symIdx_bounds hi h0 h1).1 (symIdx_bounds hi h0 h1).2
+
+/-- access at `s1*nb + s2` of an `nb × nb` array -/
+theorem inb_sym2 {sz : List Nat} {arr w nb : Nat} {s1 s2 : Int} {wr : Bool}
+    (hsz : sz.getD arr 0 = (nb * nb) * w) (a0 : 0 ≤ s1) (a1 : s1 < (nb : Int))
+    (b0 : 0 ≤ s2) (b1 : s2 < (nb : Int)) :
+    (Acc.mk arr ((s1 * (nb : Int) + s2) * (w : Int)) w wr).inb sz :=
+  inb_of_int hsz (symIdx2_bounds a0 a1 b0 b1).1 (symIdx2_bounds a0 a1 b0 b1).2
+
+end Pyunicorn.Access
+
+namespace Pyunicorn.Access
+
+
+def minStep (acc x : Option Rat) : Option Rat := match acc, x with
+    | some a, some b => some (if b < a then b else a)
+    | _, _ => none
+
+theorem optMin_eq (xs : List (Option Rat)) : optMin xs = xs.foldl minStep (xs.headD none) := rfl
+
+theorem foldl_minStep_some (xs : List (Option Rat)) (acc : Option Rat) (a : Rat)
+    (h : xs.foldl minStep acc = some a) :
+    (∃ c, acc = some c ∧ a ≤ c) ∧ ∀ x ∈ xs, ∃ v, x = some v ∧ a ≤ v := by
+  induction xs generalizing acc with
+  | nil => simp at h; exact ⟨⟨a, h, Rat.le_refl⟩, by simp⟩
+  | cons x t ih =>
+    simp only [List.foldl_cons] at h
+    obtain ⟨⟨c', hc', hac'⟩, ht⟩ := ih _ h
+    cases acc with
+    | none => simp [minStep] at hc'
+    | some c0 =>
+      cases x with
+      | none => simp [minStep] at hc'
+      | some b =>
+        simp only [minStep, Option.some.injEq] at hc'
+        refine ⟨⟨c0, rfl, ?_⟩, ?_⟩
+        · grind
+        · intro y hy
+          simp only [List.mem_cons] at hy
+          rcases hy with rfl | hy
+          · exact ⟨b, rfl, by grind⟩
+          · exact ht y hy
+
+theorem optMin_le (xs : List (Option Rat)) (a : Rat) (h : optMin xs = some a) :
+    ∀ x ∈ xs, ∃ v, x = some v ∧ a ≤ v :=
+  (foldl_minStep_some xs _ a (by rw [← optMin_eq]; exact h)).2
+
+
+
+def maxStep (acc x : Option Rat) : Option Rat := match acc, x with
+    | some a, some b => some (if a < b then b else a)
+    | _, _ => none
+theorem optMax_eq (xs : List (Option Rat)) : optMax xs = xs.foldl maxStep (xs.headD none) := rfl
+
+theorem foldl_maxStep_some (xs : List (Option Rat)) (acc : Option Rat) (a : Rat)
+    (h : xs.foldl maxStep acc = some a) :
+    (∃ c, acc = some c ∧ c ≤ a) ∧ ∀ x ∈ xs, ∃ v, x = some v ∧ v ≤ a := by
+  induction xs generalizing acc with
+  | nil => simp at h; exact ⟨⟨a, h, Rat.le_refl⟩, by simp⟩
+  | cons x t ih =>
+    simp only [List.foldl_cons] at h
+    obtain ⟨⟨c', hc', hac'⟩, ht⟩ := ih _ h
+    cases acc with
+    | none => simp [maxStep] at hc'
+    | some c0 =>
+      cases x with
+      | none => simp [maxStep] at hc'
+      | some b =>
+        simp only [maxStep, Option.some.injEq] at hc'
+        refine ⟨⟨c0, rfl, ?_⟩, ?_⟩
+        · grind
+        · intro y hy
+          simp only [List.mem_cons] at hy
+          rcases hy with rfl | hy
+          · exact ⟨b, rfl, by grind⟩
+          · exact ht y hy
+
+theorem optMax_ge (xs : List (Option Rat)) (a : Rat) (h : optMax xs = some a) :
+    ∀ x ∈ xs, ∃ v, x = some v ∧ v ≤ a :=
+  (foldl_maxStep_some xs _ a (by rw [← optMax_eq]; exact h)).2
+
+theorem optMin_ne_nil (xs : List (Option Rat)) (a : Rat) (h : optMin xs = some a) : xs ≠ [] := by
+  intro e; subst e; simp [optMin] at h
+
+theorem Data.at_mem_flat (d : Data) (i k : Nat) (v : Rat) (h : d.at i k = some v) :
+    some v ∈ d.flat := by
+  unfold Data.at at h
+  unfold Data.flat
+  rw [List.mem_flatten]
+  by_cases hi : i < d.length
+  · refine ⟨d[i], List.getElem_mem hi, ?_⟩
+    have e : d.getD i [] = d[i] := by simp [List.getD, hi]
+    rw [e] at h
+    by_cases hk : k < d[i].length
+    · have : (d[i]).getD k none = (d[i])[k] := by simp [List.getD, hk]
+      rw [this] at h
+      rw [← h]; exact List.getElem_mem hk
+    · have : (d[i]).getD k none = none := by
+        simp [List.getD, List.getElem?_eq_none (Nat.le_of_not_lt hk)]
+      rw [this] at h; cases h
+  · have : d.getD i [] = [] := by
+      simp [List.getD, List.getElem?_eq_none (Nat.le_of_not_lt hi)]
+    rw [this] at h; simp at h
+
+end Pyunicorn.Access
